@@ -162,7 +162,8 @@ def run_state(case):
     for oid, vol, start_vol, status, side in zip(odf["order_id"].tolist(), odf["vol"].tolist(), odf["start_vol"].tolist(), odf["status"].tolist(), odf["side"].tolist()):
         if vol != start_vol - fills.get(oid, 0):
             raise Violation("C19 order data-frame volume columns do not hold remaining / starting volume", "order %r: vol column %r, start_vol column %r, logged fills %r" % (oid, vol, start_vol, fills.get(oid, 0)))
-        if (status == "filled") != (vol == 0 and start_vol > 0):
+        # (an order submitted with volume 0 has nothing to fill: its status says nothing about the columns)
+        if start_vol > 0 and (status == "filled") != (vol == 0):
             raise Violation("C19 order data-frame status / volume columns are inconsistent", "order %r: status %r, vol %r, start_vol %r" % (oid, status, vol, start_vol))
         if side not in ("bid", "ask"):
             raise Violation("C19 order data-frame side column", "order %r: %r" % (oid, side))
@@ -173,8 +174,11 @@ def run_state(case):
 
 
 def state_case_st():
-    bid = st.tuples(st.just("place"), st.just(True), st.integers(1, 30), st.integers(0, 9), st.integers(92, 99))
-    ask = st.tuples(st.just("place"), st.just(False), st.integers(1, 40), st.integers(0, 9), st.integers(101, 108))
+    # volumes: the API accepts 0 (such an order rests and is counted, with no volume); C19 quantifies over all book states
+    bvol = st.one_of(st.integers(1, 30), st.integers(1, 30), st.integers(1, 30), st.integers(0, 2))
+    avol = st.one_of(st.integers(1, 40), st.integers(1, 40), st.integers(1, 40), st.integers(0, 2))
+    bid = st.tuples(st.just("place"), st.just(True), bvol, st.integers(0, 9), st.integers(92, 99))
+    ask = st.tuples(st.just("place"), st.just(False), avol, st.integers(0, 9), st.integers(101, 108))
     op = st.one_of(
         bid,
         ask,
@@ -268,7 +272,7 @@ def replay_runner(part, case):
 
 def main(tier):
     q = tier == "quick"
-    parts = [("array-states", 500 if q else 5000, state_case_st(), run_state), ("data-frames", 500 if q else 5000, frames_case_st(), run_frames)]
+    parts = [("array-states", 4000 if q else 50000, state_case_st(), run_state), ("data-frames", 3000 if q else 40000, frames_case_st(), run_frames)]
     rc = common.run_parts("C19", tier, parts, RULE, ASSUMPTIONS, replay_runner)
     # append the docstring cross-check to the evidence (informational)
     try:
